@@ -52,7 +52,7 @@ type Obs struct {
 }
 
 var obsNames = []string{"m.String", "m.WriteTo", "f.LLString", "b.LLString", "inst.LLString", "v.Type", "v.Ident", "v.String",
-	"inst.Operands", "term.Succs", "g.LLString", "term.LLString", "term.Operands", "f.Type+Ident", "param.String", "operands.Ident+String+Type", "g.Type+Ident+String", "typedef.String+LLString", "metadata.Ident+LLString"}
+	"inst.Operands", "term.Succs", "g.LLString", "term.LLString", "term.Operands", "f.Type+Ident", "param.String", "operands.Ident+String+Type", "g.Type+Ident+String", "typedef.String+LLString", "metadata.Ident+LLString", "alias/ifunc.Type+Ident+String"}
 
 func (o Obs) String() string {
 	return fmt.Sprintf("%s(%d,%d,%d)", obsNames[o.K%len(obsNames)], o.A, o.B, o.C)
@@ -152,11 +152,15 @@ func genProgram(r *rng, p genParams) *Prog {
 		case x < 88:
 			add(Step{Op: "setop", K: r.intn(6), A: sel(), B: sel(), C: sel(), D: sel(), P: sel()})
 		case x < 90:
-			switch r.intn(3) {
+			switch r.intn(5) {
 			case 0:
 				add(Step{Op: "setinc", K: r.intn(3), A: sel(), B: sel(), C: sel(), D: sel(), P: sel()})
 			case 1:
 				add(Step{Op: "setgep", A: sel(), B: sel()})
+			case 2:
+				add(Step{Op: "addparam", K: r.intn(5), A: sel(), Name: name()})
+			case 3:
+				add(Step{Op: "setaliasee", A: sel(), B: sel()})
 			default:
 				add(Step{Op: "settype", K: r.intn(3), A: sel(), B: sel()})
 			}
@@ -505,8 +509,16 @@ func (mc *machine) newInst(f *mfunc, k, c, d int) ir.Instruction {
 	case 11:
 		callee := mc.fn(c)
 		var args []value.Value
+		var plain []value.Value
 		for i, p := range callee.f.Params {
-			args = append(args, mc.pick(f, p.Typ, d+i))
+			x := mc.pick(f, p.Typ, d+i)
+			plain = append(plain, x)
+			if (c+d+i)%4 == 0 {
+				// an argument with call-site parameter attributes
+				x = ir.NewArg(x, enum.ParamAttrNoUndef)
+				mc.probes["call argument with call-site attributes"]++
+			}
+			args = append(args, x)
 		}
 		if lit {
 			in = &ir.InstCall{Callee: callee.f, Args: args}
@@ -514,7 +526,7 @@ func (mc *machine) newInst(f *mfunc, k, c, d int) ir.Instruction {
 			in = ir.NewCall(callee.f, args...)
 		}
 		calleeRet = callee.f.Sig.RetType
-		mc.use(in, append([]value.Value{callee.f}, args...)...)
+		mc.use(in, append([]value.Value{callee.f}, plain...)...)
 	case 12:
 		x := mc.pick(f, tI32, c)
 		if lit {
@@ -702,7 +714,11 @@ func (mc *machine) compatibleCallee(user interface{}, old *ir.Func, pick int) va
 		}
 		ok := true
 		for i, p := range g.Params {
-			if !p.Typ.Equal(mc.typeOf(args[i])) {
+			a := args[i]
+			if w, ok := a.(*ir.Arg); ok {
+				a = w.Value
+			}
+			if !p.Typ.Equal(mc.typeOf(a)) {
 				ok = false
 			}
 		}
@@ -851,6 +867,34 @@ func (mc *machine) exec1(s Step) bool {
 			f.f.FuncAttrs = append(f.f.FuncAttrs, def)
 		}
 		mc.probes["attribute group with a hand-chosen ID appended"]++
+		return true
+	case "addparam":
+		// A parameter appended to an existing function through the exported field
+		// (the function's cached signature and pointer type keep the old shape).
+		f := mc.fn(s.A)
+		if f == nil || len(f.f.Params) >= 5 || !mc.illFormed {
+			return false // (existing calls keep their old argument lists: IR LLVM rejects)
+		}
+		pn := ""
+		if s.Name != "" {
+			pn = mc.uniq(f.lnames, s.Name)
+		}
+		f.f.Params = append(f.f.Params, ir.NewParam(pn, paramType(s.K)))
+		mc.probes["parameter appended to an existing function"]++
+		return true
+	case "setaliasee":
+		// The aliasee of an alias replaced by another global (possibly of another
+		// type) through the exported field.
+		if len(mc.m.Aliases) == 0 || len(mc.globals) < 2 || !mc.illFormed {
+			return false
+		}
+		a := mc.m.Aliases[s.A%len(mc.m.Aliases)]
+		g := mc.globals[s.B%len(mc.globals)]
+		if a.Aliasee == constant.Constant(g) {
+			return false
+		}
+		a.Aliasee = g
+		mc.probes["aliasee of an alias replaced"]++
 		return true
 	case "alias":
 		name := mc.uniq(mc.gnames, s.Name)
@@ -1059,8 +1103,15 @@ func (mc *machine) exec1(s Step) bool {
 		case 5:
 			callee := mc.fn(s.C)
 			var args []value.Value
+			var plain []value.Value
 			for i, p := range callee.f.Params {
-				args = append(args, mc.pick(f, p.Typ, s.D+i))
+				x := mc.pick(f, p.Typ, s.D+i)
+				plain = append(plain, x)
+				if (s.C+s.D+i)%3 == 0 {
+					x = ir.NewArg(x, enum.ParamAttrNoUndef)
+					mc.probes["call argument with call-site attributes"]++
+				}
+				args = append(args, x)
 			}
 			b1, b2 := mc.block(f, s.D), mc.block(f, s.D+3)
 			inv := ir.NewInvoke(callee.f, args, b1, b2)
@@ -1070,7 +1121,7 @@ func (mc *machine) exec1(s Step) bool {
 				inv.SetName(mc.uniq(f.lnames, s.Name))
 			}
 			t = inv
-			mc.use(t, append([]value.Value{callee.f, b1, b2}, args...)...)
+			mc.use(t, append([]value.Value{callee.f, b1, b2}, plain...)...)
 		}
 		b.Term = t
 		return true
@@ -1244,6 +1295,9 @@ func (mc *machine) exec1(s Step) bool {
 			return false
 		}
 		old := *op
+		if _, wrapped := old.(*ir.Arg); wrapped {
+			return false // an argument carrying call-site attributes stays as it is
+		}
 		var t types.Type = types.Void
 		if !isCallee(user, old) {
 			// (the builder itself must not ask a callee for its type: that would be
@@ -1608,6 +1662,22 @@ func (mc *machine) observe(o Obs) (applied bool, bad string) {
 		_ = md.Ident()
 		_ = md.LLString()
 		return true, ""
+	case 19:
+		if n := len(mc.m.Aliases); n > 0 && o.B%2 == 0 {
+			a := mc.m.Aliases[o.A%n]
+			_ = a.Type()
+			_ = a.Ident()
+			_ = a.String()
+			return true, ""
+		}
+		if n := len(mc.m.IFuncs); n > 0 {
+			a := mc.m.IFuncs[o.A%n]
+			_ = a.Type()
+			_ = a.Ident()
+			_ = a.String()
+			return true, ""
+		}
+		return false, ""
 	case 16:
 		if len(mc.globals) == 0 {
 			return false, ""
